@@ -211,11 +211,12 @@ def prelude():
             raise RuntimeError("leaf check")
     class Leafy(metaclass=RaisingMeta):
         pass
-    ops = [lambda: isinstance((1, FaultyNode(RuntimeError("flatten"))), PyTree[int]),
-           lambda: isinstance((1, FaultyNode(Boom("flatten"))), PyTree[Float[np.ndarray, "a"], "T"]),
+    ops = [lambda: isinstance((np.zeros((3,), "float32"), np.zeros((4,), "float32")), PyTree[Float[np.ndarray, "q"], "T"]),
            lambda: isinstance((Leafy(),), PyTree[Leafy, "T"]),
+           lambda: isinstance((1, FaultyNode(Boom("flatten"))), PyTree[Float[np.ndarray, "a"], "T"]),
+           lambda: isinstance((1, FaultyNode(RuntimeError("flatten"))), PyTree[int]),
            lambda: isinstance((np.zeros((3,), "float32"),), PyTree[Float[np.ndarray, "dim+1"], "S"]),
-           lambda: isinstance((np.zeros((3,), "float32"), np.zeros((4,), "float32")), PyTree[Float[np.ndarray, "q"], "T"])]
+           lambda: isinstance((1, FaultyNode(RuntimeError("flatten"))), PyTree[int])]
     for o in ops:
         for ctx in (False, True):
             try:
